@@ -20,7 +20,7 @@ def pick(rnd, i):
     return case, make, ""
 
 
-CHECK = ComponentCheck("C25", pick, drain=0)
+CHECK = ComponentCheck("C25", pick, drain=0, suite=(("PriorityEncoderAllocator",), ("test/lib/test_allocators.py",)))
 shards, run_shard = CHECK.shards, CHECK.run_shard
 RULE = ("histories = hostile random alloc[i]/free[j]/peek/replace/clear sequences for entries in {1,2,3,5,8,16}, 1-4 alloc ways, 1-3 free ways, init "
         "in {all free (-1), random non-negative mask, none, negative partial mask ~m}; only allocated identifiers are freed, each at most once per cycle; non-trivial distinct case = (config, number of "
